@@ -1,7 +1,7 @@
 import MlsVerif.Props.C01Group
 import MlsVerif.Props.C02Group
 /-! Axiom audit of the composed group properties: every theorem of `Props/C01Group.lean` and
-`Props/C02Group.lean` depends on at most `propext`, `Classical.choice`, `Quot.sound`. -/
+`Props/C02Group.lean` (incl. the external-commit theorems) depends on at most `propext`, `Classical.choice`, `Quot.sound`. -/
 open MlsVerif.Props
 
 #print axioms C01Group.invariant_holds
@@ -34,3 +34,29 @@ open MlsVerif.Props
 #print axioms C02Group.member2_derives
 #print axioms C02Group.joiner_derives
 #print axioms C02Group.removed_member_derives_without_path
+
+-- external commits
+#print axioms C01Group.invariant_preserved_ext
+#print axioms C01Group.external_commit_epoch_secret
+#print axioms C01Group.external_commit_delivered_members_advance
+#print axioms C01Group.external_commit_never_stuck
+#print axioms C01Group.external_committer_gets_members_state
+#print axioms C01Group.external_commit_receivers_tree
+#print axioms C01Group.external_receiver_secret_is_derivable
+
+#print axioms C02Group.ciphertext_recipients_ext
+#print axioms C02Group.external_init_known_to_old_members
+#print axioms C02Group.removed_by_external_commit_holds_no_key
+#print axioms C02Group.resync_old_state_forward_secrecy
+#print axioms C02Group.resync_old_ghost_forward_secrecy
+#print axioms C02Group.outsider_forward_secrecy_ext
+#print axioms C02Group.removed_by_external_commit_cannot_derive
+#print axioms C02Group.init_chain_secrecy
+#print axioms C02Group.epoch_secrets_depend_on_a_root
+#print axioms C02Group.never_member_learns_no_epoch_secret
+#print axioms C02Group.external_committer_learns_nothing_earlier
+#print axioms C02Group.example_resync_secrecy
+#print axioms C02Group.member0_follows_external_commit
+#print axioms C02Group.joiner_derives_new_epoch
+#print axioms C02Group.example_joiner_learns_nothing_earlier
+#print axioms C02Group.later456
